@@ -267,7 +267,7 @@ def _pwl_layer(cfg):
   miss = cfg.get('missing')
   if miss:
     kw['impute_missing'] = True
-    if miss in ('value', 'value_fixed'):
+    if miss in ('value', 'value_fixed', 'both', 'both_fixed'):
       kw['missing_input_value'] = cfg.get('miss_in', -7.5)
     if miss.endswith('fixed'):
       kw['missing_output_value'] = cfg.get('miss_out', 0.75)
@@ -316,7 +316,8 @@ class PwlCallCase(Case):
   def build(self, cfg):
     layer = _pwl_layer(cfg)
     x = tfc.sym([cfg.get('batch', 1), cfg.get('in_cols', cfg['units'])], 'x')
-    if cfg.get('missing') in ('tensor', 'tensor_fixed'):
+    if cfg.get('missing') in ('tensor', 'tensor_fixed', 'both', 'both_fixed'):
+      # 'both': the layer has a missing_input_value AND the caller passes is_missing flags: the flags decide
       rng = getattr(C.cur(), 'concrete_rng', None)
       if rng is not None:
         m = tfc.convert_to_tensor(np.array([[float(rng.randint(0, 1)) for _ in range(x.a.shape[1])]
@@ -600,6 +601,15 @@ def configs(tier, rng):
                 cfg = dict(nk=nk, kpset=kpset, units=units, cyclic=cyclic, split=split,
                            in_cols=in_cols, missing=missing, batch=1 if units > 1 else 2)
                 jobs.append(('pwl_call', cfg))
+          if not cyclic and nk in (2, 3):
+            # a layer with a missing_input_value that is also given is_missing flags (the flags decide); the sentinel
+            # lies inside the keypoint range so that flagged and sentinel-valued inputs are different points
+            kps_ = KEYPOINTS[nk][kpset]
+            for in_cols in sorted({1, units}):
+              for mm in ('both', 'both_fixed'):
+                jobs.append(('pwl_call', dict(nk=nk, kpset=kpset, units=units, cyclic=False, split=False, in_cols=in_cols,
+                                              missing=mm, miss_in=float(kps_[0] + kps_[1]) / 2.0,
+                                              batch=1 if units > 1 else 2)))
           if not cyclic and nk == 3:
             # falsy zeros as missing input / output values
             for in_cols in sorted({1, units}):
